@@ -882,6 +882,14 @@ fn process_input(
         }
 
         have_pending_command = true;
+        if builder_options.replace.is_some() {
+            // One run per line: the line is complete, so its command is run now,
+            // not when the next line has been read (which may fail, or be long
+            // in coming).
+            result.combine(current_builder.execute()?);
+            current_builder = CommandBuilder::new(builder_options);
+            have_pending_command = false;
+        }
     }
 
     if !options.no_run_if_empty || have_pending_command {
